@@ -13,7 +13,7 @@ from ._pairs import compare_all, table_state_keys, V
 
 PID = "C15"
 LEVEL = "model_checking"
-WITNESSES = ["permuted_columns", "extra_column", "reindexed", "extra_rows", "thermal_crop", "combined_transformations", "season_calendar_checked_by_name", "nights_below_base_temperature", "weather_matrix_checked_by_date", "same_dates_other_row_offset", "stepwise_blocks", "rerun_with_later_start", "yearly_periodic_weather"]
+WITNESSES = ["weather_file_read_by_prepare_weather", "file_with_row_label_column", "permuted_columns", "extra_column", "reindexed", "extra_rows", "thermal_crop", "combined_transformations", "season_calendar_checked_by_name", "nights_below_base_temperature", "weather_matrix_checked_by_date", "same_dates_other_row_offset", "stepwise_blocks", "rerun_with_later_start", "yearly_periodic_weather"]
 NONTRIVIAL = WITNESSES
 
 COLS = ["MinTemp", "MaxTemp", "Precipitation", "ReferenceET", "Date"]
@@ -35,9 +35,93 @@ def _thermal(start_on_planting=False):
     return s
 
 
+FILE_LABELS = ["none", "zero_based", "one_based", "from_500", "reversed"]
+
+
+def file_scenarios(tier):
+    """The same records written to a text file in the layout of the bundled climate files and read back with prepare_weather():
+    without a row-label column (tunis_climate.txt), with labels 0..n-1 (tests/brussels_future.txt), with labels 1..n, with labels of a
+    slice of a longer table, with descending labels; 0 / 200 extra days before the window."""
+    for ck in (("calendar", "thermal") if tier == "quick" else tuple(CROPS)):
+        for lab in FILE_LABELS:
+            for lead in (0, 200):
+                yield {"kind": "file", "crop": ck, "labels": lab, "lead": lead}
+
+
+def run_file(scn):
+    import os
+    import tempfile
+    from aquacrop.utils import prepare_weather
+
+    res = empty_result()
+    spec, tb, dg = base_for(scn["crop"])
+    p = copy.deepcopy(spec)
+    p["weather"]["lead"] = scn["lead"]
+    can = S.make_weather(p)
+    n = len(can)
+    labels = {"none": None, "zero_based": list(range(n)), "one_based": list(range(1, n + 1)), "from_500": list(range(500, 500 + n)), "reversed": list(range(n - 1, -1, -1))}[scn["labels"]]
+    fd, path = tempfile.mkstemp(prefix="acmc_c15_", suffix=".txt")
+    try:
+        with os.fdopen(fd, "w") as f:
+            f.write(("\t" if labels is not None else "") + "Day\tMonth\tYear\tTmin(C)\tTmax(C)\tPrcp(mm)\tEt0(mm)\n")
+            for i, r in enumerate(can.itertuples(index=False)):
+                d = pd.Timestamp(r.Date)
+                row = [str(d.day), str(d.month), str(d.year), repr(float(r.MinTemp)), repr(float(r.MaxTemp)), repr(float(r.Precipitation)), repr(float(r.ReferenceET))]
+                f.write("\t".join(([str(labels[i])] if labels is not None else []) + row) + "\n")
+        try:
+            df = prepare_weather(path)
+        except Exception as e:  # noqa: BLE001
+            res["evals"] = 1
+            res["violations"].append(V("equivalent-weather-table-raises", None, {"exc": type(e).__name__, "msg": str(e)[:160], "where": "prepare_weather"}, "reads the file", labels=scn["labels"], sig=["file-raise"]))
+            return res
+    finally:
+        try:
+            os.unlink(path)
+        except OSError:
+            pass
+    res["witness"]["weather_file_read_by_prepare_weather"] = 1
+    if labels is not None:
+        res["witness"]["file_with_row_label_column"] = 1
+    # the table prepare_weather returns must carry, row by row, the record and the date written in the file
+    exp_dates = pd.DatetimeIndex(can["Date"].values)
+    got_dates = pd.DatetimeIndex(pd.to_datetime(df["Date"].values))
+    bad = None
+    if len(df) != n:
+        bad = {"rows": len(df), "rows_in_file": n}
+    elif not (got_dates == exp_dates).all():
+        k = int(np.argmax(~(got_dates == exp_dates)))
+        bad = {"row": k, "date": str(got_dates[k]), "date_in_file": str(exp_dates[k])}
+    else:
+        for col in ("MinTemp", "MaxTemp", "Precipitation"):
+            if not np.array_equal(np.asarray(df[col], dtype=float), np.asarray(can[col], dtype=float)):
+                k = int(np.argmax(np.asarray(df[col], dtype=float) != np.asarray(can[col], dtype=float)))
+                bad = {"row": k, "column": col, "value": float(np.asarray(df[col], dtype=float)[k]), "value_in_file": float(np.asarray(can[col], dtype=float)[k])}
+                break
+    if bad is not None:
+        res["evals"] = 1
+        res["violations"].append(V("file-records-keep-their-dates", bad.get("row"), bad, "every record dated as written in the file", labels=scn["labels"], sig=["file-dates"]))
+        return res
+    ent = S.make_entities(spec)
+    ent["weather_df"] = df
+    t, a, _ = run_plain(spec, entities=ent)
+    res["evals"] = 1
+    if a:
+        res["aborted"] = a
+        res["violations"].append(V("equivalent-weather-table-raises", None, {"exc": a.get("exc_type"), "origin": a.get("exc_origin"), "msg": (a.get("exc_msg") or "")[:160]}, "runs like the canonical table",
+                                   labels=scn["labels"], sig=["raise", a.get("exc_type"), a.get("exc_origin")]))
+        return res
+    res["states"], res["transitions"] = table_state_keys(t)
+    if tables_digest(t) != dg:
+        d = compare_all(t, tb)
+        res["violations"].append(V("equivalent-weather-table-same-results", (d or {}).get("row"), {"labels": scn["labels"], "lead": scn["lead"], "first_difference": d}, "bitwise equal to the run on the canonical table",
+                                   labels=scn["labels"], sig=["file-differs"]))
+    return res
+
+
 def scenarios(tier, seed=0):
     yield from byname_scenarios(tier)
     yield from periodic_scenarios(tier)
+    yield from file_scenarios(tier)
     perms = list(itertools.permutations(range(5)))
     ident = tuple(range(5))
     if tier == "quick":
@@ -314,6 +398,8 @@ def run(scn):
         return run_periodic(scn)
     if scn.get("kind") == "byname":
         return run_byname(scn)
+    if scn.get("kind") == "file":
+        return run_file(scn)
     res = empty_result()
     spec, tb, dg = base_for(scn["crop"])
     p = copy.deepcopy(spec)
